@@ -29,7 +29,7 @@ CFG = {
                    "SuccinctlyVerif/Spec/Bits.lean", "SuccinctlyVerif/Spec/BP.lean"],
     "required_theorems": ["SV.Props.C02." + t for t in (
         "popcount_portable_eq", "popc_eq", "select_in_byte_eq", "tz_eq", "ilog2_eq", "pdep_bit",
-        "select_ctz_eq", "select_broadword_eq", "broadword_in_range", "select_pdep_eq",
+        "select_ctz_eq", "select_broadword_eq", "broadword_in_range", "select_pdep_eq", "select_paths_agree",
         "block_popcount_portable_eq", "block_popcount_avx2_eq",
         "find_unmatched_close_eq", "find_close_in_word_eq")],
     "generated": ["common:", "tables"],
